@@ -298,3 +298,11 @@ Theorem C08_row_clipping_is_the_regenerated_code : forall (P : Type) (mk : Z -> 
   end.
 Proof. exact (@read_rows_step_regen). Qed.
 Print Assumptions C08_row_clipping_is_the_regenerated_code.
+
+(* ---- T16: the bounds of a channel are computed by the regenerated _get_first_sample / _get_last_sample *)
+From DRF Require Import Gen.BoundsGen Proofs.BoundsGenProofs.
+Theorem C08_bounds_are_the_regenerated_code : forall (V : Type) (fs : list (@rfile V)),
+  get_bounds fs = (first_some (fun f => gen_get_first_sample (findex f) (dlen f)) fs,
+                   last_some (fun f => gen_get_last_sample (findex f) (dlen f)) fs).
+Proof. exact @get_bounds_regen. Qed.
+Print Assumptions C08_bounds_are_the_regenerated_code.
